@@ -380,7 +380,7 @@ def build_roi(s):
 OPS = {"gt": operator.gt, "ge": operator.ge, "lt": operator.lt, "le": operator.le, "eq": operator.eq, "ne": operator.ne}
 
 LEAF_KINDS_ND = ["ineq", "ineq", "ineq2", "range", "multirange", "roi", "mask", "slice", "element", "base", "catroi",
-                 "category", "cateq", "floodfill", "parsed"]
+                 "category", "cateq", "floodfill", "parsed", "roind", "roi3d", "roipre"]
 LEAF_KINDS_1D_ONLY = ["cat2d", "catmultirange"]
 
 
@@ -419,6 +419,17 @@ def leaf_spec(draw, dspec, kinds=None):
         x = draw(st.sampled_from(nums))
         y = draw(st.sampled_from(nums))
         return {"t": "roi", "x": x, "y": y, "roi": draw(roi2d_spec(kinds=("rect", "circ", "ellipse", "poly", "xrange", "yrange"), rotated=False))}
+    if k == "roind":          # the n-attribute form of a region selection
+        return {"t": "roind", "atts": [draw(st.sampled_from(nums)), draw(st.sampled_from(nums))],
+                "roi": draw(roi2d_spec(kinds=("rect", "circ", "poly"), rotated=False))}
+    if k == "roi3d":          # three attributes projected to the screen by a matrix, region in screen space
+        sh = draw(st.sampled_from([0.0, 0.5, -1.0]))
+        return {"t": "roi3d", "atts": [draw(st.sampled_from(nums)), draw(st.sampled_from(nums)), draw(st.sampled_from(nums))],
+                "roi": draw(roi2d_spec(kinds=("rect", "circ"), rotated=False)),
+                "matrix": [[1.0, 0.0, sh, 0.0], [0.0, 1.0, 0.0, 0.0], [0.0, 0.0, 1.0, 0.0], [0.0, 0.0, 0.0, 1.0]]}
+    if k == "roipre":         # region selection behind a coordinate pre-transform (degrees -> radians on x and/or y)
+        return {"t": "roipre", "x": draw(st.sampled_from(nums)), "y": draw(st.sampled_from(nums)),
+                "roi": draw(roi2d_spec(kinds=("rect", "circ"), rotated=False)), "coords": draw(st.sampled_from([["x"], ["y"], ["x", "y"]]))}
     if k == "mask":
         return {"t": "mask", "mask": draw(st.lists(st.booleans(), min_size=n, max_size=n))}
     if k == "slice":
@@ -534,6 +545,14 @@ def build_state(s, data, how="ctor"):
         return S.MultiRangeSubsetState([tuple(p) for p in s["pairs"]], att=ref_cid(data, s["att"]))
     if t == "roi":
         return S.RoiSubsetState(ref_cid(data, s["x"]), ref_cid(data, s["y"]), build_roi(s["roi"]))
+    if t == "roind":
+        return S.RoiSubsetStateNd([ref_cid(data, a) for a in s["atts"]], build_roi(s["roi"]))
+    if t == "roi3d":
+        from glue.core.roi import Projected3dROI
+        return S.RoiSubsetState3d(*[ref_cid(data, a) for a in s["atts"]], Projected3dROI(build_roi(s["roi"]), np.array(s["matrix"])))
+    if t == "roipre":
+        from glue.core.roi_pretransforms import RadianTransform
+        return S.RoiSubsetState(ref_cid(data, s["x"]), ref_cid(data, s["y"]), build_roi(s["roi"]), pretransform=RadianTransform(coords=list(s["coords"])))
     if t == "mask":
         return S.MaskSubsetState(np.array(s["mask"], dtype=bool).reshape(data.shape), data.pixel_component_ids)
     if t == "slice":
